@@ -25,6 +25,12 @@ mod state;
 mod util;
 mod vardct;
 
+/// Verification hooks (only with `--cfg jxl_oxide_verif`).
+#[cfg(jxl_oxide_verif)]
+pub mod verif {
+    pub use crate::vardct::verif_transform::*;
+}
+
 pub use error::{Error, Result};
 pub use features::render_spot_color;
 pub use image::{ImageBuffer, ImageWithRegion};
